@@ -2,6 +2,8 @@
   PrtpyProofs.MaxMin — (1) max-min guarantee of LPT (`greedy`), (2) the binary search of `multifit`.
 -/
 import Mathlib.Tactic.Linarith
+import Mathlib.Tactic.Ring
+import Mathlib.Tactic.Positivity
 import Prtpy
 import PrtpyProofs.Part
 import PrtpyProofs.Oracle
@@ -597,5 +599,181 @@ theorem run_maxmin_two_thirds {v : α → Nat} : ∀ (k : Nat), 0 < k → ∀ (x
         have : (k'' + 1) * (2 * W) ≤ (k'' + 1) * (3 * minL (run v (k'' + 1 + 1) xs).sums) := by nlinarith
         exact Nat.le_of_mul_le_mul_left this (by omega)
       nlinarith
+
+/-! ## 6. The unconditional max-min guarantees of `greedy` proved here -/
+
+/-- **Max-min, unconditional partial bound `2k/(3k−1)`**: LPT's smallest sum is at least `2k/(3k−1)` of the optimal
+    smallest sum (`4/5` for two bins, `3/4` for three, always more than `2/3`).
+
+    The exact constant of Csirik–Kellerer–Woeginger is `(3k−1)/(4k−2)`:
+    `(3 * k - 1) * opt ≤ (4 * k - 2) * minL (greedy v k items).sums`  — open here in the case where the
+    `(k+1)`-th largest value `y` satisfies `(4k−2)·y > k·opt` and `2·y ≤` LPT's smallest sum (cf.
+    `LPT43.greedy_maxmin_partial_small`). -/
+theorem greedy_maxmin_partial_2k_3k {v : α → Nat} {k : Nat} {items : List α} (hk : 0 < k) {opt : Nat}
+    (hopt : IsOptimalValue .maxSmallest k (items.map v) (-(opt : Int))) :
+    2 * k * opt ≤ (3 * k - 1) * minL (greedy v k items).sums := by
+  obtain ⟨W, hW, Q, hQk, hQp, hQ⟩ := cover_of_opt hk hopt
+  have hW' : W = opt := by exact_mod_cast hW
+  subst hW'
+  have key := run_maxmin_two_thirds (v := v) k hk (sortDesc v items) (Part.sortDesc_sorted v items) W Q hQk
+    (hQp.trans ((Part.sortDesc_perm v items).map v).symm) hQ
+  rw [greedy_eq_run]
+  obtain ⟨k', rfl⟩ : ∃ k', k = k' + 1 := ⟨k - 1, by omega⟩
+  have e : 3 * (k' + 1) - 1 = 3 * k' + 2 := by omega
+  rw [e]
+  nlinarith
+
+/-- **Max-min, unconditional partial bound `2/3`**: `2 · OPT ≤ 3 · (smallest sum of LPT)`, for every number of
+    bins. -/
+theorem greedy_maxmin_partial_two_thirds {v : α → Nat} {k : Nat} {items : List α} (hk : 0 < k) {opt : Nat}
+    (hopt : IsOptimalValue .maxSmallest k (items.map v) (-(opt : Int))) :
+    2 * opt ≤ 3 * minL (greedy v k items).sums := by
+  have key := greedy_maxmin_partial_2k_3k hk hopt
+  have h1 : (3 * k - 1) * minL (greedy v k items).sums ≤ 3 * k * minL (greedy v k items).sums :=
+    Nat.mul_le_mul_right _ (by omega)
+  have h2 : k * (2 * opt) ≤ k * (3 * minL (greedy v k items).sums) := by nlinarith
+  exact Nat.le_of_mul_le_mul_left h2 hk
+
+/-- non-vacuity: `[3, 3, 2, 2, 2]` on two bins: optimal smallest sum `6`, LPT's smallest sum `5`:
+    `2 · 2 · 6 = 24 ≤ 25 = 5 · 5` -/
+example : 2 * 2 * 6 ≤ (3 * 2 - 1) * minL (greedy id 2 [3, 3, 2, 2, 2]).sums :=
+  greedy_maxmin_partial_2k_3k (v := id) (by decide) optmin_33222
+example : 2 * 6 ≤ 3 * minL (greedy id 2 [3, 3, 2, 2, 2]).sums :=
+  greedy_maxmin_partial_two_thirds (v := id) (by decide) optmin_33222
+
+/-! ## 7. The binary search of `multifit` -/
+
+section Multifit
+variable (v : α → Nat)
+
+/-- first-fit (on the list `xs`, as given) with capacity `c` needs at most `k` bins -/
+def Fits (k : Nat) (xs : List α) (c : Rat) : Prop := ∃ n, ffCount v c xs = .ok n ∧ n ≤ k
+
+/-- first-fit with capacity `c` runs and needs more than `k` bins -/
+def Fails (k : Nat) (xs : List α) (c : Rat) : Prop := ∃ n, ffCount v c xs = .ok n ∧ k < n
+
+theorem not_fits_of_fails {k : Nat} {xs : List α} {c : Rat} (h : Fails v k xs c) : ¬ Fits v k xs c := by
+  rintro ⟨n, hn, hle⟩
+  obtain ⟨n', hn', hlt⟩ := h
+  rw [hn] at hn'
+  cases hn'
+  omega
+
+/-- **The invariant of the binary search.**  If the search started at `(lo, hi)` returns `cap` after `it`
+    iterations, then `cap` is the upper end of an interval `[lo', cap]` with
+    * `cap − lo' = (hi − lo) / 2^it` (the interval is halved in every iteration),
+    * `lo ≤ lo' ≤ cap ≤ hi` (if `lo ≤ hi`),
+    * `lo'` is the initial lower bound or a capacity at which first-fit needs more than `k` bins,
+    * `cap` is the initial upper bound or a capacity at which first-fit needs at most `k` bins. -/
+theorem multifit_search_invariant (k : Nat) (xs : List α) :
+    ∀ (it : Nat) (lo hi cap : Rat), multifitSearch v k xs it lo hi = .ok cap →
+      ∃ lo' : Rat, cap - lo' = (hi - lo) / 2 ^ it ∧ (lo ≤ hi → lo ≤ lo' ∧ lo' ≤ cap ∧ cap ≤ hi) ∧
+        (lo' = lo ∨ Fails v k xs lo') ∧ (cap = hi ∨ Fits v k xs cap) := by
+  intro it
+  induction it with
+  | zero =>
+    intro lo hi cap h
+    simp only [multifitSearch] at h
+    cases h
+    exact ⟨lo, by simp, fun hle => ⟨le_refl _, hle, le_refl _⟩, Or.inl rfl, Or.inl rfl⟩
+  | succ it ih =>
+    intro lo hi cap h
+    simp only [multifitSearch] at h
+    split at h
+    · cases h
+    · rename_i n hc
+      split at h
+      · rename_i hn
+        obtain ⟨lo', h1, h2, h3, h4⟩ := ih lo _ cap h
+        refine ⟨lo', ?_, ?_, h3, ?_⟩
+        · rw [h1, pow_succ]; ring
+        · intro hle
+          obtain ⟨a1, a2, a3⟩ := h2 (by linarith)
+          exact ⟨a1, a2, by linarith⟩
+        · rcases h4 with h4 | h4
+          · right; rw [h4]; exact ⟨n, hc, hn⟩
+          · exact Or.inr h4
+      · rename_i hn
+        obtain ⟨lo', h1, h2, h3, h4⟩ := ih _ hi cap h
+        refine ⟨lo', ?_, ?_, ?_, h4⟩
+        · rw [h1, pow_succ]; ring
+        · intro hle
+          obtain ⟨a1, a2, a3⟩ := h2 (by linarith)
+          exact ⟨by linarith, a2, a3⟩
+        · rcases h3 with h3 | h3
+          · right; rw [h3]; exact ⟨n, hc, by omega⟩
+          · exact Or.inr h3
+
+/-- **The initial bounds.**  The initial lower bound `max (total/k) (largest)` is at most the optimal largest
+    sum, and the initial interval is not longer than the optimal largest sum. -/
+theorem multifit_lo_bound {k : Nat} (hk : 0 < k) {items : List α} {opt : Int}
+    (hopt : IsOptimalValue .minLargest k (items.map v) opt) :
+    ratMax (((sumL (items.map v) : Nat) : Rat) / k) ((maxL (items.map v) : Nat) : Rat) ≤ (opt : Rat) ∧
+    ratMax (2 * ((sumL (items.map v) : Nat) : Rat) / k) ((maxL (items.map v) : Nat) : Rat) -
+      ratMax (((sumL (items.map v) : Nat) : Rat) / k) ((maxL (items.map v) : Nat) : Rat) ≤ (opt : Rat) ∧
+    ratMax (((sumL (items.map v) : Nat) : Rat) / k) ((maxL (items.map v) : Nat) : Rat) ≤
+      ratMax (2 * ((sumL (items.map v) : Nat) : Rat) / k) ((maxL (items.map v) : Nat) : Rat) := by
+  obtain ⟨T, rfl, hp⟩ := packable_of_opt hopt
+  have hS := packable_sum hp
+  have hM : maxL (items.map v) ≤ T := Part.maxL_le (fun a ha => packable_item_le hp ha)
+  have hk' : (0 : Rat) < k := by exact_mod_cast hk
+  have hSq : ((sumL (items.map v) : Nat) : Rat) / k ≤ (T : Rat) := by
+    rw [div_le_iff₀ hk']
+    exact_mod_cast (by rw [Nat.mul_comm] at hS; exact hS)
+  have hMq : ((maxL (items.map v) : Nat) : Rat) ≤ (T : Rat) := by exact_mod_cast hM
+  have hS0 : (0 : Rat) ≤ ((sumL (items.map v) : Nat) : Rat) / k := by positivity
+  have e2 : 2 * ((sumL (items.map v) : Nat) : Rat) / k = 2 * (((sumL (items.map v) : Nat) : Rat) / k) := by ring
+  rw [e2]
+  push_cast
+  unfold ratMax
+  refine ⟨?_, ?_, ?_⟩ <;> (repeat' split) <;> linarith
+
+/-- `FfdFits ρ`: first-fit on the list `xs` fits into `k` bins for **every** capacity `c ≥ ρ · OPT`.
+    (For `xs` sorted decreasingly and `ρ = 1.22` this is the theorem of Coffman, Garey and Johnson; it is proved
+    below for `ρ = 2k/(k+1)`.) -/
+def FfdFits (k : Nat) (xs : List α) (ρ opt : Rat) : Prop := ∀ c : Rat, ρ * opt ≤ c → Fits v k xs c
+
+/-- **Multifit, conditional ratio.**  If first-fit-decreasing fits into `k` bins for every capacity
+    `≥ ρ · OPT` (`ρ ≥ 1`), the largest sum of multifit with `it` iterations is at most `(ρ + 2^−it) · OPT`.
+
+    The lower end of the search interval only moves to capacities at which first-fit-decreasing fails, which by
+    the hypothesis are below `ρ · OPT`; the interval has length `(hi₀ − lo₀) / 2^it ≤ OPT / 2^it`. -/
+theorem multifit_ratio_of_ffdFits {k : Nat} {items : List α} {it : Nat} {b : Bins α} (hk : 0 < k) {opt : Int}
+    (hopt : IsOptimalValue .minLargest k (items.map v) opt) {ρ : Rat} (hρ : 1 ≤ ρ)
+    (hfit : FfdFits v k (sortDesc v items) ρ opt) (h : multifit v k items it = .ok b) :
+    ((maxL b.sums : Nat) : Rat) ≤ (ρ + 1 / 2 ^ it) * opt := by
+  obtain ⟨hlo, hlen, hle⟩ := multifit_lo_bound v hk hopt
+  simp only [multifit] at h
+  split at h
+  · cases h
+  · rename_i cap e
+    obtain ⟨lo', h1, h2, h3, _⟩ := multifit_search_invariant v k _ it _ _ cap e
+    obtain ⟨a1, a2, a3⟩ := h2 hle
+    have hlo0 : (0 : Rat) ≤ ratMax (((sumL (items.map v) : Nat) : Rat) / k)
+        ((maxL (items.map v) : Nat) : Rat) :=
+      le_trans (by positivity) (Part.ratMax_right _ _)
+    have hopt0 : (0 : Rat) ≤ (opt : Rat) := le_trans hlo0 hlo
+    have hcap0 : (0 : Rat) ≤ cap := by linarith
+    -- the lower end stays below `ρ · OPT`
+    have hlo' : lo' ≤ ρ * opt := by
+      rcases h3 with h3 | h3
+      · rw [h3]; nlinarith
+      · apply le_of_lt
+        apply lt_of_not_ge
+        intro hge
+        exact not_fits_of_fails v h3 (hfit lo' hge)
+    have hpow : (0 : Rat) < 2 ^ it := by positivity
+    have hdiv : (ratMax (2 * ((sumL (items.map v) : Nat) : Rat) / k) ((maxL (items.map v) : Nat) : Rat) -
+        ratMax (((sumL (items.map v) : Nat) : Rat) / k) ((maxL (items.map v) : Nat) : Rat)) / 2 ^ it ≤
+        (opt : Rat) / 2 ^ it := by
+      rw [div_le_div_iff_of_pos_right hpow]; exact hlen
+    have hmax : maxL b.sums ≤ floorNat cap := Part.maxL_le (Part.ffOnline_le v _ b h)
+    have hq1 : ((maxL b.sums : Nat) : Rat) ≤ ((floorNat cap : Nat) : Rat) := by exact_mod_cast hmax
+    have hq2 := Part.floorNat_le cap hcap0
+    have e1 : (ρ + 1 / 2 ^ it) * (opt : Rat) = ρ * opt + (opt : Rat) / 2 ^ it := by ring
+    rw [e1]
+    linarith
+
+end Multifit
 
 end Prtpy.MaxMin
